@@ -695,7 +695,7 @@ def tess_pipeline(tier, seed, tag, count=None, nmax=None, closepairs=0):
     nmax = nmax or (24 if tier == "quick" else 40)
     t0 = time.time()
     run_harness(binp, ["tess", "--out", res_file, "--trace", trace_file, "--tier", tier, "--seed", str(seed),
-                       "--count", str(count), "--nmax", str(nmax), "--closepairs", str(closepairs)])
+                       "--count", str(count), "--nmax", str(nmax), "--closepairs", str(closepairs)] + (["--extra-onwall"] if tag == "C13" else []))
     res = json.load(open(res_file))
     log("tess recorder: %s (%.1fs)" % (res["stats"], time.time() - t0))
     cfg = os.path.join(OUT, "tlc", "vtesstrace.cfg")
